@@ -54,6 +54,12 @@ def _args_cop(inputs, o, work=None):
         ln = _num(inputs.get("in_slen")) & 0xFFFFFFFF
         alloc = min(bs, 5 + ln)
         return ["strser", str(ln), str(bs), str(alloc), "".join("%02x" % x for x in _bytes(inputs, "in_bytes", 32))]
+    if e == "h_call":
+        # C15.reqbuf: one string argument of the counterexample's length against the request-building rule
+        return ["args", "1", str(_num(inputs.get("in_slen")) & 0xFFFFFFFF or 9000)]
+    if e == "h_safe" and d.get("COP_DEPTH_GHOST"):
+        # the counterexample is "one more frame than the bound"; natively: a well-formed 1.2 MB message of nested arrays
+        return ["nest", "200000"]
     if e in ("h_sdec", "h_safe"):
         # arbitrary bytes in a buffer of exactly buf_size bytes (bytes beyond the named 32 are zero)
         b = _bytes(inputs, "in_bytes", 32)
